@@ -90,6 +90,10 @@ def build_identity(eng):
             # interface preservation: an Identity from a graph input / initializer straight to a graph output is kept
             "implies(old(len(node._inputs) == 1 and len(node._outputs) == 1 and nonnull(node._inputs[0]) and node._outputs[0]._is_graph_output and "
             "(node._inputs[0]._is_graph_input or node._inputs[0]._is_initializer)), not result)",
+            # ... and so is an Identity forwarding a value of ANOTHER graph (outer scope) to an output of this graph: a graph's
+            # outputs are produced inside it (checker validity)
+            "implies(result and old(node._outputs[0]._is_graph_output), nonnull(old(node._inputs[0]._producer)) and "
+            "old(node._inputs[0]._producer._graph) is old(node._graph))",
             # graph inputs and initializers keep their names; the surviving value carries the name of a replaced graph output
             "forall(lambda v=Value: implies(old(allocated(v) and (v._is_graph_input or v._is_initializer)), v._name == old(v._name)))",
             "implies(result and old(node._outputs[0]._is_graph_output), old(node._inputs[0])._name == old(node._outputs[0]._name))",
